@@ -161,7 +161,7 @@ class BasicDBusProtocol(protocol.Protocol):
 
             lines = (self._buffer + data).split(self.authDelimiter)
             self._buffer = lines.pop(-1)
-            for line in lines:
+            for lineno, line in enumerate(lines):
                 if self.transport.disconnecting:
                     # this is necessary because the transport may be
                     # told to lose the connection by a line within a
@@ -178,8 +178,15 @@ class BasicDBusProtocol(protocol.Protocol):
                             self.guid = self._dbusAuth.getGUID()
                             self._dbusAuth = None
                             self.setAuthenticationSucceeded()
-                            if self._buffer:
-                                self.dataReceived(b'')
+                            # Everything following the final authentication
+                            # line is binary message data, even if it happens
+                            # to contain the line delimiter.
+                            rest = self.authDelimiter.join(
+                                lines[lineno + 1:] + [self._buffer])
+                            self._buffer = b''
+                            if rest:
+                                self.dataReceived(rest)
+                            return
                     except error.DBusAuthenticationFailed as e:
                         log.msg('DBus Authentication failed: ' + str(e))
                         self.transport.loseConnection()
